@@ -38,6 +38,10 @@ let () =
        | Some (v, []) -> "T1=" ^ hex_of_bytes t1 ^ "\tD1=" ^ dump v ^ "\tT2=" ^ hex_of_bytes (print_uri c v)
        | Some (_, _) -> "T1=" ^ hex_of_bytes t1 ^ "\tD1=TRAILING"
        | None -> "T1=" ^ hex_of_bytes t1 ^ "\tD1=ERR")
+    | "host" ->
+      (match parse_host4 (bytes_of_hex f.(3)) with
+       | IsIP4 (a, b, c, d, _) -> Printf.sprintf "IP4:%s.%s.%s.%s" (decimal_of_n a) (decimal_of_n b) (decimal_of_n c) (decimal_of_n d)
+       | NotIP4 -> "OTHER")
     | "meth" ->
       let tok = unhx f.(3) in
       let m = method_of tok in
